@@ -27,6 +27,10 @@ type Job struct {
 	Out     string        `json:"out"`
 	Workdir string        `json:"workdir"` // scratch module to chdir into
 	Errs    bool          `json:"errs"`    // include full error text and positions
+	// ItemTimeoutS > 0: an item without a result after that many seconds of wall time in which the process
+	// used less than a tenth of it as CPU time (a deadlock), or after four times as long in any case, is
+	// logged with stage "hang" and the worker exits with status 4
+	ItemTimeoutS int `json:"item_timeout_s,omitempty"`
 }
 
 type Line struct {
@@ -117,7 +121,35 @@ func main() {
 			var ms runtime.MemStats
 			runtime.ReadMemStats(&ms)
 			a0, c0 := ms.TotalAlloc, cpuMs()
+			var stop chan struct{}
+			if job.ItemTimeoutS > 0 {
+				stop = make(chan struct{})
+				go func(id string, run int) {
+					t0 := time.Now()
+					tick := time.NewTicker(time.Second)
+					defer tick.Stop()
+					for {
+						select {
+						case <-stop:
+							return
+						case <-tick.C:
+						}
+						wall := time.Since(t0).Seconds()
+						cpu := float64(cpuMs()-c0) / 1000
+						if (wall >= float64(job.ItemTimeoutS) && cpu < wall/10) || wall >= 4*float64(job.ItemTimeoutS) {
+							buf := make([]byte, 1<<20)
+							buf = buf[:runtime.Stack(buf, true)]
+							emit(Line{ID: id, Run: run, Stage: "hang", Err: fmt.Sprintf("no result after %.0f s wall, %.1f s CPU, GOMAXPROCS=%d", wall, cpu, runtime.GOMAXPROCS(0)), PanicAt: genlab.OgenFrames(string(buf), 12), Procs: runtime.GOMAXPROCS(0)})
+							out.Close()
+							os.Exit(4)
+						}
+					}
+				}(it.ID, run)
+			}
 			res := it.Run(hook)
+			if stop != nil {
+				close(stop)
+			}
 			runtime.ReadMemStats(&ms)
 			l := Line{ID: it.ID, Run: run, Stage: res.Stage, Panic: res.Panic, PanicAt: res.PanicAt, CPUms: cpuMs() - c0, AllocB: ms.TotalAlloc - a0, Procs: runtime.GOMAXPROCS(0), RSSkB: maxRSS()}
 			if res.Err != nil {
